@@ -130,9 +130,16 @@ def main():
         os.makedirs(root)
         cwd, args = write_case(root, case["violations"])
         res = {}
+        frag_lines = []
+        if len(case["violations"]) == 1:
+            v0 = case["violations"][0]
+            d, fname = LOC_FILE[v0["loc"]]
+            text = open(os.path.join(root, d, fname)).read().split("\n")
+            frag = fragment(v0, "x0").split("\n")
+            frag_lines = [i + 1 for i, l in enumerate(text) if l in frag]
         for cmd in ("validate", "generate"):
             rc, o, e, ev = cu.run_yardl(yardl, cmd, cwd, home, args)
-            res[cmd] = {"rc": rc, "stderr": e.replace(root + "/", "")[-1500:], "wrote": os.path.exists(os.path.join(root, "out", "json", "model.json"))}
+            res[cmd] = {"frag_lines": frag_lines, "rc": rc, "stderr": e.replace(root + "/", "")[-1500:], "wrote": os.path.exists(os.path.join(root, "out", "json", "model.json"))}
             shutil.rmtree(os.path.join(root, "out"), ignore_errors=True)
         return case, res
 
@@ -156,6 +163,15 @@ def main():
                     c.violation(key + ":accepted", "`yardl %s` accepted a package closure with [%s]%s" % (cmd, desc, " and wrote output" if r["wrote"] else ""), replay)
                     break
                 errs = [l for l in r["stderr"].splitlines() if "ERR" in l or l.strip().startswith(tuple(case["files"]))]
+                # ... with the line of the offending construct (each fragment occupies known lines of its file)
+                if len(vs) == 1 and any(f in r["stderr"] for f in case["files"]):
+                    lines_ok = r["frag_lines"]
+                    import re as _re
+                    got = [int(m.group(1)) for m in _re.finditer(_re.escape(case["files"][0]) + r":(\d+):", r["stderr"])]
+                    if got and lines_ok and not any(g in lines_ok for g in got):
+                        c.violation(key + ":wrong-line", "`yardl %s` reports [%s] at line(s) %s of %s; the construct is on line %s" % (
+                            cmd, desc, sorted(set(got)), case["files"][0], lines_ok), replay)
+                        break
                 if not any(f in r["stderr"] for f in case["files"]):
                     c.violation(key + ":file-not-named", "`yardl %s` rejected [%s] but no error names %s: %s" % (cmd, desc, case["files"], r["stderr"][-300:]), replay)
                     break
